@@ -340,7 +340,7 @@ class C16(Check):
             "extra_parse on EVERY byte string of length <= 2, on single-site mutations at every offset (7 substitutions, non-minimal "
             "and overflowing varint, delete, duplicate, truncate) of generated extras and of the extras of the repository's "
             "test-suite transactions/blocks, on tag-biased random strings; subfield_dec/decs on all strings <= 1 byte, mutations, random; "
-            "extra_from_len at the 32 MiB boundary of RawExtraField::from; both cargo profiles (release, dev = overflow checks on); non-trivial = distinct case line; the oracle is an independent "
+            "length prefixes at the allocation-cap boundary of key vectors and blobs; extra_from_len at the 32 MiB boundary of RawExtraField::from; both cargo profiles (release, dev = overflow checks on); non-trivial = distinct case line; the oracle is an independent "
             "python implementation of the grammar and of the loop (strict LEB128, cap, Ed25519 validity by python integers)")
     level_note = ("theorems are about the Gallina model Model/Extra.v, with PublicKey::from_slice acceptance an arbitrary predicate "
                   "(instance Ed25519.pk_valid in the evaluators) and std::io::Cursor's position after a short read a modelled std "
@@ -444,6 +444,13 @@ class C16(Check):
         # allocation-cap boundary of RawExtraField::from (1 tag + 4 length bytes + n <= 32 MiB, else the unwrap panics)
         for n in (CAP - 6, CAP - 5, CAP - 4, CAP - 3, CAP, CAP + 1, 0, 1000):
             cs.append(Case("extra_from_len %d" % n, "from-cap-boundary"))
+        # allocation cap inside the sub-field decoders: 32 * n <= 32 MiB for keys, n <= 32 MiB for blobs; beyond it the decoder
+        # fails right after the length (and the loop resumes there), within it it runs into the end of the input
+        for tag, lim in ((4, CAP // 32), (2, CAP), (0xde, CAP)):
+            for n in (lim - 1, lim, lim + 1, lim + 2, 2 * lim, 2**32, 2**63, 2**64 - 1):
+                for tail in (b"", b"\x02\x01\x07", keys.get(rng) + b"\x02\x01\x07"):
+                    parse(bytes([tag]) + leb(n) + tail, "cap-boundary-bytes")
+                cs.append(Case("subfield_dec " + hx(bytes([tag]) + leb(n) + b"\x00"), "cap-boundary-bytes"))
         # random sequences
         for _ in range(2500 if not thorough else 60000):
             n = rng.randint(0, 8)
